@@ -37,7 +37,7 @@ theorem op_preserves (op : Op) (s : St) (hs : Coherent s.tree) (hp : Pre op s) :
       (∀ n, locate s.tree p = some n → Coherent n → LocOk n (f n)) →
       Coherent (match atPath f p s.tree with
         | none => ({ st := s, err := some .badPath } : Res)
-        | some r => { st := ⟨r.node, r.next⟩, removed := r.removed, out := r.out, err := r.err }).st.tree := by
+        | some r => { st := ⟨r.node, r.next⟩, removed := r.removed, out := r.out, err := r.err, upd := r.upd }).st.tree := by
     intro f p hf
     cases h : atPath f p s.tree with
     | none => exact hs
@@ -56,7 +56,7 @@ theorem op_preserves (op : Op) (s : St) (hs : Coherent s.tree) (hp : Pre op s) :
       have : apply (.unroll (k :: p)) s =
           (match atPath ((Op.unroll (k :: p)).loc s.next) (Op.unroll (k :: p)).target s.tree with
             | none => ({ st := s, err := some .badPath } : Res)
-            | some r => { st := ⟨r.node, r.next⟩, removed := r.removed, out := r.out, err := r.err }).st := rfl
+            | some r => { st := ⟨r.node, r.next⟩, removed := r.removed, out := r.out, err := r.err, upd := r.upd }).st := rfl
       rw [this]
       apply key
       intro n _ hc
